@@ -6,3 +6,5 @@ const verifDispatchDeepL = 64
 const verifHistorySteps = 4
 const verifChainMaxDepth = 3
 const verifChainFullID = false
+const verifChunkSteps = 4
+const verifDownloadComps = 3
